@@ -374,11 +374,11 @@ def plan_C03(w):
     else:
         kinds = [("ord%d" % i, dict(traces=6, n=0, steps=160, arg="thorough")) for i in range(4)] + \
                 [("ordN4a", dict(traces=2, n=4, steps=200, arg="thorough")), ("ordN4b", dict(traces=2, n=4, steps=200, arg="thorough")),
-                 ("ordN7", dict(traces=1, n=7, steps=220, arg="thorough")),
+                 ("ordN7", dict(traces=1, n=7, steps=170, arg="thorough")),
                  ("ordF", dict(traces=12, sched="funky", arg="thorough"))]
     kinds += rk
     # (the drivers are single-threaded and the thorough variants re-feed every DAG many times: run them side by side)
-    traces, sums = drive_par(w, gossip_specs(w, kinds), "orders", par=7 if not q else 4, timeout=3000)
+    traces, sums = drive_par(w, gossip_specs(w, kinds), "orders", par=7 if not q else 4, timeout=6000)
     g = [("gsp", dict(traces=3 if q else 10, n=0, steps=100 if q else 220, sched="mix"))]
     t2, s2 = drive_all(w, gossip_specs(w, g))
     ts, ss = sched_traces(w, q)
